@@ -38,6 +38,7 @@ class Facts:
         self._cond_cache = {}
         self._phase = 1
         self._inn1 = {}
+        self._closed = {}
         self._compute()
         # second pass: boolean phis (`a && b` conditions) are expanded using the facts of pass 1
         self._inn1 = dict(self.inn)
@@ -77,7 +78,8 @@ class Facts:
                     res |= self.cond_facts(c, True) | self.cond_facts(a, True)
                 if not truth and is_const(a) and const_val(a) != 0:
                     res |= self.cond_facts(c, False) | self.cond_facts(b, False)
-            elif d.op == "phi" and self._is_bool(d) and self._phase >= 2:
+            elif d.op == "phi" and self._phase >= 2 and not d.ty.endswith("*"):
+                # (any integer width: `int ok = helper(...); if (!ok) ...` leaves an i32 flag phi once the helper is inlined)
                 # the phi is true (false) only if it came through an incoming that can be
                 # true (false); facts common to all such incomings hold
                 acc = None
@@ -118,6 +120,13 @@ class Facts:
                         res.add(("ne", v, ("ci", c, 0)))
             elif len(hit) == 1:
                 res.add(("eq", v, ("ci", hit[0], 0)))
+            elif len(hit) > 1:
+                # several case values share the target: the value is one of them (a set fact; see edges_refuting / edges_value_in)
+                res.add(("in", v, ("cset", tuple(sorted(hit)))))
+            if s == default and hit:
+                for c, bb in cases:
+                    if bb != s:
+                        res.add(("ne", v, ("ci", c, 0)))
             # switch on a phi of constants (clang's cleanup-destination pattern): taking the edge for value c
             # means the phi came through an incoming edge carrying c; facts common to those edges hold
             d = self.fn.defn(v)
@@ -161,15 +170,70 @@ class Facts:
                         inn[b] = acc
                         changed = True
         self.inn = {b: (f if f is not TOP else frozenset()) for b, f in inn.items()}
+        self._closed = {}
+
+    # ---- flag refinement ----------------------------------------------------------
+    def _dominating_def(self, o, blk):
+        """operand o is a constant, a parameter, or defined in a block that strictly dominates blk (so that the instance of o seen by a
+        fact established before blk is the instance current facts talk about)"""
+        if o[0] != "v":
+            return True
+        d = self.fn.defn(o)
+        if d is None or d.is_param:
+            return True
+        return d.block.id != blk and self.fn.dominates(d.block.id, blk)
+
+    def _refine_flags(self, facts):
+        """Given the facts of a program point, sharpen what a known-(non)zero flag phi implies: the flag took its value on one of its
+        incoming edges; an incoming whose own facts contradict what is known here is impossible; the facts common to the remaining
+        incomings hold.  (`ok = 1` on the "nothing to read" edge and `ok = (p != NULL)` on the other; later `len != 0` rules the first
+        out, so `ok != 0` implies `p != NULL`.)"""
+        if self._phase < 2:
+            return facts
+        out = set(facts)
+        for _ in range(3):
+            added = False
+            for f in list(out):
+                if f[0] not in ("ne", "eq") or not is_const(f[2]) or const_val(f[2]) != 0:
+                    continue
+                x = f[1]
+                d = self.fn.defn(x)
+                while d is not None and not d.is_param and d.op in ("zext", "sext"):
+                    x = d.ops[0]
+                    d = self.fn.defn(x)
+                if d is None or d.is_param or d.op != "phi" or d.ty.endswith("*"):
+                    continue
+                truth = f[0] == "ne"
+                acc = None
+                for v, pb in d.incoming:
+                    if is_const(v) and bool(const_val(v)) != truth:
+                        continue
+                    fs = set(self.cond_facts(v, truth)) | set(self._inn1.get(pb, frozenset())) | set(self.edge_facts(pb, d.block.id))
+                    contradicted = False
+                    for g in fs:
+                        if g[0] in NEG and (NEG[g[0]], g[1], g[2]) in out and self._dominating_def(g[1], d.block.id) and self._dominating_def(g[2], d.block.id):
+                            contradicted = True
+                            break
+                    if contradicted:
+                        continue
+                    acc = fs if acc is None else (acc & fs)
+                if acc and not acc <= out:
+                    out |= acc
+                    added = True
+            if not added:
+                break
+        return frozenset(out)
 
     def at_block(self, b):
-        return self.inn.get(b, frozenset())
+        if b not in self._closed:
+            self._closed[b] = self._refine_flags(self.inn.get(b, frozenset()))
+        return self._closed[b]
 
     def at_inst(self, inst):
         return self.at_block(inst.block.id)
 
     def on_edge(self, p, s):
-        return self.at_block(p) | self.edge_facts(p, s)
+        return self._refine_flags(self.at_block(p) | self.edge_facts(p, s))
 
     # ---- truth needs ----------------------------------------------------------
     def need_nonzero(self, o, _seen=None):
@@ -271,6 +335,38 @@ class Facts:
                     seen.add(s)
                     work.append(s)
         return False
+
+    def _value_edges(self, valpat):
+        """(edge, fact) for every edge fact whose left side matches valpat"""
+        m = Matcher(self.fn)
+        for b in self.fn.blocks:
+            for s in b.succs:
+                for f in self.edge_facts(b.id, s):
+                    if f[0] in ("eq", "ne", "in") and m.match(valpat, f[1], {}) is not None:
+                        yield (b.id, s), f
+
+    def edges_refuting(self, valpat, k):
+        """edges whose facts contradict 'value == k': value != k, value == k' (k' != k), value in S with k not in S"""
+        res = set()
+        for e, f in self._value_edges(valpat):
+            if f[0] == "ne" and is_const(f[2]) and const_val(f[2]) == k:
+                res.add(e)
+            elif f[0] == "eq" and is_const(f[2]) and const_val(f[2]) != k:
+                res.add(e)
+            elif f[0] == "in" and k not in f[2][1]:
+                res.add(e)
+        return res
+
+    def edges_value_in(self, valpat, allowed):
+        """edges whose facts imply that the value is one of `allowed`"""
+        res = set()
+        allowed = set(allowed)
+        for e, f in self._value_edges(valpat):
+            if f[0] == "eq" and is_const(f[2]) and const_val(f[2]) in allowed:
+                res.add(e)
+            elif f[0] == "in" and set(f[2][1]) <= allowed:
+                res.add(e)
+        return res
 
     def edges_with_fact(self, pat, env=None):
         """all CFG edges whose edge facts contain a fact matching pat"""
@@ -507,6 +603,8 @@ def describe(fn, o, depth=3):
         return str(o[1])
     if o[0] == "null":
         return "NULL"
+    if o[0] == "cset":
+        return "{%s}" % ", ".join(str(x) for x in o[1])
     if o[0] in ("gv", "fn"):
         return "@" + o[1]
     if o[0] == "ce":
